@@ -1,18 +1,23 @@
 """C20: pulse-coupled oscillators always have exactly one scheduled firing.
 
-Tie B: whole runs of PulseCoupledOscillator under both dynamics with scripted initial states; the
-numeric maps (decimal round(x, 5), phaseToState, stateToPhase) are NOT taken from the implementation:
-the harness records the ARGUMENT of every call and recomputes the value from the formula; those values
-are the oracle of Model/Pulse.v.  Compared by vm_compute (Tie/C20.v): the argument of every numeric
-call (the model computes them exactly), the event id and pending time of every node after set-up and
-after every event, the FIRED taps, the firing log, the final phases, time and event count.
+Tie B: whole runs of PulseCoupledOscillator under both dynamics with scripted initial states.  The numeric
+maps are NOT taken from the implementation: a recording subclass notes the ARGUMENT of every call of
+normalisePhase / phaseToState / stateToPhase / setFiringTime and the harness recomputes round(x, 5), f and g
+from the formulas; those values are the oracle of Model/Pulse.v.  The one exception is the time a firing is
+posted for: the theorems leave its rounding open (any time between the caller's time and the exact argument
++ 5e-6), so the model is given the posted time observed through pendingEventTime and Tie/C20.v checks that it
+is such a value (this keeps the tie valid before and after the repair F13, which removes that rounding).
+Compared by vm_compute: the argument of every numeric call (the model computes them exactly in Q), the event
+id and pending time of every node after set-up and after every event, the FIRED taps, the firing log, the
+final phases, time and event count, and the boolean invariant on the model's final queue.
 
-D: the property restated on the implementation's observables only (no model): after set-up and after
-every event each node has exactly one live posted event and its 'event' attribute names it; it is due
-at most one period (+5e-6) after the current time; the node that fired is due one period later; the log
-is non-decreasing and matches the FIRED taps one to one; final phases in [0, 1]; on complete networks
-the number of distinct pending times never increases and the largest group never shrinks, sampled
-whenever no node is due at the current time (i.e. after every batch of same-time firings)."""
+D: the property restated on the implementation's observables only (no model): after set-up and after every
+event each node has exactly one live posted event (scan of dyn._postedEventFinder and of the heap) and its
+'event' attribute names it; it is due at most one period (+5e-6) after the current time; the node that fired
+is due one period later; the log is non-decreasing and matches the FIRED taps one to one; final phases in
+[0, 1]; on complete networks the number of distinct phases (as getPhase(normalise=True) rounds them, and as
+exact pending times) never increases and the largest group never shrinks, sampled whenever no node is due at
+the current time (i.e. after every batch of same-time firings)."""
 import itertools
 import math
 from fractions import Fraction
@@ -87,8 +92,14 @@ def run_case(case, budget=140):
             return r
 
         def setFiringTime(self, n, et):
-            calls.append(['T', et, n])
-            return super().setFiringTime(n, et)
+            rec = ['T', et, n, None]
+            calls.append(rec)
+            r = super().setFiringTime(n, et)
+            try:        # the time the event was posted for, through the public API
+                rec[3] = self.pendingEventTime(self.network().nodes[n][self.NODE_EVENT_ID])
+            except KeyError:
+                pass
+            return r
 
         def phaseToState(self, phi):
             r = super().phaseToState(phi)
@@ -184,8 +195,14 @@ def run_case(case, budget=140):
 # ---------------------------------------------------------------- oracle values, recomputed from the recorded arguments
 def oracle_value(case, call):
     k, arg = call[0], call[1]
-    if k == 'N' or k == 'T':
+    if k == 'N':
         return round(arg, PREC)
+    if k == 'T':
+        # the theorems leave the rounding of a posting time open (any value between the caller's time and the
+        # argument + 5e-6): the model is given the time observed and Tie/C20.v checks that it is such a value
+        if call[3] is None:
+            raise ValueError('no posted time')
+        return call[3]
     if k == 'S':
         return f_state(case['b'], arg)
     if k == 'G':
@@ -337,7 +354,7 @@ def direct(case, obs):
 
 
 # ---------------------------------------------------------------- generator
-PERIODS = [1.0, 1.0, 2.0, 0.5, 0.7, 1.3, 0.25, 3.0, 0.12345]
+PERIODS = [1.0, 1.0, 2.0, 0.5, 0.7, 1.3, 0.25, 3.0, 0.12345, 0.123451234, 0.700003, 0.001003, 2.3333333333]
 BS = [1.0, 1.0, 2.0, 0.5, 3.0, 5.0]
 COUPLINGS = [0.125, 0.05, 0.3, 0.007, 1.0, 0.0, 0.5, -0.05]
 
@@ -348,7 +365,7 @@ def gen_case(rnd, tier='quick'):
     dynamics = rnd.choice(['stochastic', 'synchronous'])
     period = rnd.choice(PERIODS)
     if dynamics == 'synchronous':
-        period = rnd.choice([1.0, 2.0, 0.5, 0.7, 1.3, 3.0])
+        period = rnd.choice([1.0, 2.0, 0.5, 0.7, 1.3, 3.0, 0.700003, 2.3333333333])
     cycles = rnd.choice([1.5, 2.5, 4.0, 6.0])
     while n * cycles > 24 and cycles > 1.5:
         cycles -= 1.0
@@ -366,8 +383,17 @@ def gen_case(rnd, tier='quick'):
             states.append(min(1 - 2.0 ** -20, max(0.0, states[0] + rnd.randrange(-8, 9) * 2.0 ** -14)))   # nearly synchronised
         else:
             states.append(rnd.randrange(0, 1 << 20) / float(1 << 20))
-    return {'graph': graph, 'period': period, 'b': rnd.choice(BS), 'coupling': rnd.choice(COUPLINGS),
+    case = {'graph': graph, 'period': period, 'b': rnd.choice(BS), 'coupling': rnd.choice(COUPLINGS),
             'maxtime': maxtime, 'dynamics': dynamics, 'states': states}
+    if rnd.random() < 0.12:
+        # synchronised groups on a complete network with a period off the 1e-5 grid (F13)
+        g = gen_graph(rnd, 'complete', 2, 5)
+        k = len(g['nodes'])
+        base = [rnd.randrange(0, 1 << 20) / float(1 << 20) for _ in range(2)]
+        case.update(graph=g, dynamics='stochastic', period=rnd.choice([0.123451234, 0.001003, 0.0300049, 0.700003]),
+                    states=[rnd.choice(base) for _ in range(k)])
+        case['maxtime'] = case['period'] * rnd.choice([2.5, 4.0])
+    return case
 
 
 class H(Harness):
@@ -376,14 +402,15 @@ class H(Harness):
     TIE_IMPORT = 'From Coq Require Import Floats.\nFrom EpyV Require Import Model.Kernel Model.Pulse Tie.C20.\nOpen Scope Q_scope.'
     CHECK_FN = 'EpyV.Tie.C20.check_fcase'
     QUICK_N = 200
-    THOROUGH_N = 2400
+    THOROUGH_N = 4000
     CASE_TIMEOUT = 30
     ALLOWED_AXIOMS = set()
     RULE = ('whole runs of PulseCoupledOscillator on networks of 2-8 nodes (complete, cycle, star, random, random with self-loops; '
-            'node order sometimes not numeric), periods incl. non-dyadic and one off the 1e-5 grid, dissipation 0.5-5, couplings '
-            'incl. 0, 1 and a negative one, StochasticDynamics and SynchronousDynamics, scripted initial states (random dyadic, '
-            'equal groups, nearly equal, 0 and almost 1); non-trivial = at least 3 firings and at least one cascade that moved a '
-            'node; distinct by the whole case')
+            'node order sometimes not numeric), periods incl. non-dyadic ones and ones off the 1e-5 grid (0.123451234, 0.001003, ...), '
+            'dissipation 0.5-5, couplings incl. 0, 1 and a negative one, StochasticDynamics and SynchronousDynamics, scripted initial '
+            'states (random dyadic, equal groups, nearly equal, 0 and almost 1), a stream of synchronised groups on complete networks '
+            'with off-grid periods (F13); all 8 graphs on 3 labelled nodes x both dynamics x 3 state patterns exhaustively; '
+            'non-trivial = at least 3 firings and at least one cascade that moved a node; distinct by the whole case')
     TRUSTED = ['Coq 8.16.1 kernel incl. vm_compute',
                'harness/c20.py and vlib (scripted rng.random, recording of the arguments of the numeric maps, reading of '
                'dyn._postedEventFinder / _postedEvents and of the node attribute for D)',
@@ -391,10 +418,22 @@ class H(Harness):
     ASSUMPTIONS = ['C20_sync_absorbing_partial assumes that the pending time a bumped node moves to is a function of the event time and its '
                    'old pending time alone, that a node due now stays due now or joins the firing node, and that a node that has just '
                    'fired is left where it is (phase 0 maps to itself); D checks the conclusion on every complete-network case',
-                   'period > 0 and dissipation != 0 (otherwise the code divides by zero or posts into the past)']
+                   'period > 0 and dissipation != 0 (otherwise the code divides by zero or posts into the past)',
+                   'the time a firing is posted for is observed (pendingEventTime) and checked per run to lie between the caller time and the exact argument + 5e-6, which is all the theorems assume of it']
 
     def gen_cases(self, tier, rnd, n):
         return [gen_case(rnd, tier) for _ in range(n)]
+
+    def exhaustive_cases(self, tier):
+        out = []
+        pairs = [(0, 1), (0, 2), (1, 2)]
+        for mask in range(8):
+            edges = [list(p) for i, p in enumerate(pairs) if mask >> i & 1]
+            for dyn in ('stochastic', 'synchronous'):
+                for states in ([0.25, 0.25, 0.25], [0.125, 0.5, 0.875], [0.0, 0.5, 0.5]):
+                    out.append({'graph': {'kind': 'all3', 'nodes': [0, 1, 2], 'edges': edges}, 'period': 1.0, 'b': 1.0,
+                                'coupling': 0.25, 'maxtime': 3.0, 'dynamics': dyn, 'states': states})
+        return out
 
     def execute(self, case):
         return run_case(case)
